@@ -159,3 +159,27 @@ impl Payload for Zst {
         None
     }
 }
+
+/// A payload of 8 KiB: buffers whose reservation is bounded in *bytes* behave differently for
+/// it than for the 4-byte `Val` (a 17-slot buffer is 136 KiB).
+pub struct Fat {
+    pub tag: u32,
+    _pad: [u8; 8188],
+}
+
+impl Drop for Fat {
+    fn drop(&mut self) {
+        // same bookkeeping as Val
+        drop(Val { tag: self.tag });
+    }
+}
+
+impl Payload for Fat {
+    const ZST: bool = false;
+    fn make(tag: u32) -> Fat {
+        Fat { tag, _pad: [0; 8188] }
+    }
+    fn tag(&self) -> Option<u32> {
+        Some(self.tag)
+    }
+}
